@@ -42,7 +42,7 @@ CLAIMS.update({
 CLAIMS.update({
  "C03": dict(text="Decides guards, keys and width constants the encoder cannot be right without on hand-built data: gap guard before table compaction and keyed collision check (finite evaluation on model index maps / values), constants table keyed by Constant.__eq__'s key function, exact constant key, operand-width thresholds and unit emission reassembling under the decoder's shift, no Optional line into arithmetic (two known findings on the lnotab path), relaxation-loop shape and agreement of all size computations. Termination/fixed-point correctness of relaxation and the synthesised line table are not decided. Also: the encoder keys an instruction's line at its first code unit; the None pin at constants[0] holds for every kind of function. The table's index map is written by the checked setter only; lines are never tested by truthiness; flags are written back as described.",
    technique="finite-domain evaluation of extracted guards / threshold tables + points-to facts + ast shape rules", ref="5 C03"),
- "C10": dict(text="Decides ONLY the format constants of the line-table codec per format (merge thresholds = split emissions = CPython's limits over the whole byte domain; split-loop coherence; -128<->None sentinel iff linetable; (unsigned, signed) byte pairing). All arithmetic on tables (items_to_mapping, mapping_to_items, cursor logic, zero-width entries, no-line runs, trailing entries) quantifies over integer sequences and is explicitly NOT decided by static analysis here. Added: the mapping builder's running line is moved by adding deltas only (a necessary condition of the decoded-line clause); stage functions are located by their place in the drivers' call chains. Also decided (necessary conditions of the decoded-line and byte-identity clauses): deltas are taken against the last real line, the no-line marker survives continuation entries, shortcuts around the split loops stay within one entry, the lnotab walk cannot end while entries remain, lines are never tested by truthiness.",
+ "C10": dict(text="Decides the format constants of the line-table codec per format (merge thresholds = split emissions = CPython's limits over the whole byte domain; split-loop coherence; -128<->None sentinel iff linetable; (unsigned, signed) byte pairing). Arithmetic over integer sequences (cursor logic of collapse_items on merged entries, loop bounds computed from sums, zero-width entries) is explicitly NOT decided by static analysis here. Added: the mapping builder's running line is moved by adding deltas only (a necessary condition of the decoded-line clause); stage functions are located by their place in the drivers' call chains. Also decided (necessary conditions of the decoded-line and byte-identity clauses): deltas are taken against the last real line, the no-line marker survives continuation entries, shortcuts around the split loops stay within one entry, the lnotab walk cannot end while entries remain, lines are never tested by truthiness.",
    technique="finite-domain evaluation of extracted predicates over the format's value domain", ref="5 C10 and 8"),
  "C15": dict(text="Decides that nothing on the JSON / normalize paths can depend on the interpreter: closures identical under every version and free of sys/dis/opcode/platform/ctypes and derived constants; no version-conditional module-level definition; no version-dependent builtin applied to data (repr of str fixed; decimal int<->text is a known finding); every import resolves in the stdlib sources of 3.7..3.12 (parsed statically). Cross-library byte identity is not decided. Also: regular-expression syntax, isinstance against typing.Union aliases and run-time subscripts of builtin containers whose evaluation differs across 3.7..3.12.",
    technique="call/import closure scan with taint of version-derived constants; stdlib source tables", ref="5 C15"),
